@@ -8,7 +8,8 @@
    concatenate to the records (C06) are the other parts; the handshake part is decided by the reference sender on the
    implementation and by byte-exact correspondence of the session model, not by a theorem (DESIGN.md, C01). *)
 From Coq Require Import ZArith List Bool.
-Require Import PyLib SuiteTypes Crypto KeySchedule Packet Reassembly Decryptor TlsRecords C01P.
+From Coq Require String.
+Require Import PyLib SuiteTypes Crypto KeySchedule Packet Reassembly Decryptor TlsSession TlsRecords C01P Hs13P C01SessionP.
 Import ListNotations.
 Open Scope Z_scope.
 
@@ -85,3 +86,75 @@ Theorem C01_directions_independent : forall (d : decryptor) (srv : bool) (n : Z)
   (if srv then d_last_block_server (set_last_block d (negb srv) b) else d_last_block_client (set_last_block d (negb srv) b)) = (if srv then d_last_block_server d else d_last_block_client d).
 Proof. exact directions_independent. Qed.
 Print Assumptions C01_directions_independent.
+
+(* ---------------- the session ---------------- *)
+(* TLS 1.3, application phase, at the level of Session.handle_tls_record: a session whose decryptor holds the two senders' keys, IVs
+   and sequence numbers (Inv13) is handed ANY interleaving of application records produced by the two senders -- evs: who sends, what,
+   with how much padding -- and exports exactly the contents, in that order, each with its direction, as application data (not
+   metadata), one entry per record; session and senders stay in step.  Composes C01_tls13, C01_dispatch, the inner-plaintext handling
+   (type byte, zero padding) and C01_directions_independent. *)
+Theorem C01_tls13_session : forall C, CryptoLaws C -> forall tbl parts keylog a key_c iv_c key_s iv_s version tag,
+  8 <= len iv_c -> 8 <= len iv_s -> len version = 2 -> 0 <= tag ->
+  forall evs s stc sts stc' sts' rs,
+  Inv13 a key_c iv_c key_s iv_s tag s stc sts (length evs) -> Forall (ev_ok tag) evs ->
+  play C a key_c iv_c key_s iv_s version tag stc sts evs = Ok (stc', sts', rs) ->
+  exists s' out, session_run C tbl parts keylog s rs = Ok (s', out) /\
+                 map shown out = map (fun e : ev => let '(srv, c, _) := e in (srv, Some c, false)) evs /\
+                 map te_record out = map snd rs /\ Inv13 a key_c iv_c key_s iv_s tag s' stc' sts' 0.
+Proof. exact tls13_session. Qed.
+Print Assumptions C01_tls13_session.
+
+(* TLS 1.3, the connection behind the ServerHello.  The server's encrypted flight -- any messages that are not a Finished, then the
+   Finished -- and then the client's, each CUT INTO RECORDS AT ANY BYTES (RFC 8446 5.1: grouped or fragmented) and padded at will,
+   protected under the handshake keys; then any interleaving of application records of both directions under the application keys.
+   The session switches each direction to its application keys exactly at that direction's Finished (sequence number 0), exports
+   nothing for the handshake records and exactly the application contents, in order, for the rest.
+   Premises on the session: what Decryptor.__init__ yields from a complete key set (C01_fresh_decryptor).  Not covered: application
+   data of the server before the client's Finished, post-handshake messages. *)
+Theorem C01_tls13_connection : forall C, CryptoLaws C -> forall tbl parts keylog a key_c iv_c key_s iv_s version tag,
+  8 <= len iv_c -> 8 <= len iv_s -> len version = 2 -> 0 <= tag ->
+  forall hk_c hi_c hk_s hi_s pre_s fb_s pre_c fb_c ps_s ps_c evs s d st_c st_s stc0 sts0 stN_s rs_s stN_c rs_c stc' sts' rs,
+  8 <= len hi_c -> 8 <= len hi_s ->
+  Sess a s d -> hs_buf s true = [] -> hs_buf s false = [] ->
+  P13 true hk_s hi_s tag (length ps_s) d st_s -> P13 false hk_c hi_c tag (length ps_c) d st_c ->
+  switch_ready d true key_s iv_s -> switch_ready d false key_c iv_c ->
+  Forall wfm pre_s -> Forall (fun m => fst m <> 20) pre_s -> wfm (20, fb_s) -> Forall (piece_ok tag) ps_s -> ps_s <> [] ->
+  concat (map fst ps_s) = stream (pre_s ++ [(20, fb_s)]) ->
+  Forall wfm pre_c -> Forall (fun m => fst m <> 20) pre_c -> wfm (20, fb_c) -> Forall (piece_ok tag) ps_c -> ps_c <> [] ->
+  concat (map fst ps_c) = stream (pre_c ++ [(20, fb_c)]) ->
+  send_pieces C a version tag hk_s hi_s st_s ps_s = Ok (stN_s, rs_s) -> send_pieces C a version tag hk_c hi_c st_c ps_c = Ok (stN_c, rs_c) ->
+  ss_seq stc0 = 0 -> ss_seq sts0 = 0 -> Z.of_nat (length evs) <= 2 ^ 64 -> Forall (ev_ok tag) evs ->
+  play C a key_c iv_c key_s iv_s version tag stc0 sts0 evs = Ok (stc', sts', rs) ->
+  exists s' out, session_run C tbl parts keylog s (map (pair true) rs_s ++ map (pair false) rs_c ++ rs) = Ok (s', out) /\
+                 map shown out = map (fun e : ev => let '(srv, c, _) := e in (srv, Some c, false)) evs /\
+                 Inv13 a key_c iv_c key_s iv_s tag s' stc' sts' 0.
+Proof. exact tls13_connection. Qed.
+Print Assumptions C01_tls13_connection.
+
+(* one direction's flight on its own (any position in the connection): cut anywhere, the key switch happens at the Finished, the
+   other direction's cipher state and buffer are untouched *)
+Theorem C01_tls13_flight : forall C, CryptoLaws C -> forall tbl parts keylog a version tag, len version = 2 -> 0 <= tag ->
+  forall srv hk hi ak ai fb, 8 <= len hi -> wfm (20, fb) ->
+  forall ps s d st rem stN rs,
+  Sess a s d -> P13 srv hk hi tag (length ps) d st -> switch_ready d srv ak ai ->
+  Forall wfm rem -> Forall (fun m => fst m <> 20) rem -> Forall (piece_ok tag) ps -> ps <> [] ->
+  hs_buf s srv ++ concat (map fst ps) = stream (rem ++ [(20, fb)]) ->
+  send_pieces C a version tag hk hi st ps = Ok (stN, rs) ->
+  exists s' d', session_run C tbl parts keylog s (map (pair srv) rs) = Ok (s', []) /\ Sess a s' d' /\ hs_buf s' srv = [] /\ hs_buf s' (negb srv) = hs_buf s (negb srv) /\
+                d_tag_length d' = d_tag_length d /\ cur_key d' srv = Some ak /\ cur_iv d' srv = Some ai /\ cur_seq d' srv = 0 /\
+                cur_key d' (negb srv) = cur_key d (negb srv) /\ cur_iv d' (negb srv) = cur_iv d (negb srv) /\ cur_seq d' (negb srv) = cur_seq d (negb srv) /\
+                (forall ak' ai', switch_ready d (negb srv) ak' ai' -> switch_ready d' (negb srv) ak' ai').
+Proof. intros C L tbl parts keylog a version tag Hv Ht. exact (hs_flight C L tbl parts keylog a version tag Hv Ht). Qed.
+Print Assumptions C01_tls13_flight.
+
+(* the premises of the two theorems above are met by the decryptor built from a complete TLS 1.3 key set *)
+Theorem C01_fresh_decryptor : forall a tag k ml bl exts comp chk chi shk shi cak cai sak sai,
+  a = AESGCM \/ a = AESCCM \/ a = ChaCha20Poly1305 ->
+  client_hs_key k = Some chk -> client_hs_iv k = Some chi -> server_hs_key k = Some shk -> server_hs_iv k = Some shi ->
+  client_app_key k = Some cak -> client_app_iv k = Some cai -> server_app_key k = Some sak -> server_app_iv k = Some sai ->
+  exists d, new_decryptor (Some a) (K13 k) TLS13 ml tag bl exts comp = Ok d /\ class13 a d /\ d_tag_length d = tag /\
+            cur_key d true = Some shk /\ cur_iv d true = Some shi /\ cur_seq d true = 0 /\
+            cur_key d false = Some chk /\ cur_iv d false = Some chi /\ cur_seq d false = 0 /\
+            switch_ready d true sak sai /\ switch_ready d false cak cai.
+Proof. exact fresh_decryptor. Qed.
+Print Assumptions C01_fresh_decryptor.
